@@ -345,11 +345,13 @@ def r6_precedence(ctx, rep):
            "dedicated command-line options", py.nloc(cfg_line))
     ok = ast.unparse(merge[0].args[1]) == "command_line_args" if len(merge[0].args) > 1 else False
     rep.ob("CLI merge uses the parsed arguments", ok, "", py.nloc(merge[0]))
-    cc = py.func("settings.convert_types_from_commandarguments")
+    cc = py.ifunc("settings.convert_types_from_commandarguments")
     cev = astq.trace(cc)
     writes = [e for e in cev if (e.kind == "assign" and e.target and "[" in e.target) or
               (e.kind == "call" and call_name(e.node) in ("setattr",))]
-    ok = bool(writes) and all(any(v is False for k, v in astq.implied_none_tests(e).items()) for e in writes)
+    # every write happens only where the path conditions imply that the value is not None (nested if, early `continue`,
+    # combined test, hoisted flag: all the same proposition)
+    ok = bool(writes) and all(astq.path_implies(e, _cli_atoms(cc), {"none": False}) is True for e in writes)
     rep.ob("absent CLI options (None) do not override", ok, "", py.nloc(cc))
     # every store_true/store_false option defaults to None so that absence does not override
     for d, c in cli_dests(py).items():
@@ -377,23 +379,44 @@ def r6_precedence(ctx, rep):
            "directory = dirname(project_file.name) is handed to load_settings and normalise_paths", py.nloc(ini))
 
 
+def _schema_table(fn, e: ast.AST) -> bool:
+    """is `e` (the right side of `key in e`) the table of schema fields: derived from the dataclass/option table"""
+    SRC = ("option_types", "fields", "get_type_hints", "field_names")
+    alts = [e] + (astq.expand_locals(e, fn) if isinstance(e, ast.Name) else [])
+    for a in alts:
+        for x in ast.walk(a):
+            if isinstance(x, ast.Call) and call_name(x).split(".")[-1] in SRC:
+                return True
+            if isinstance(x, ast.Attribute) and x.attr in ("__dataclass_fields__", "__annotations__"):
+                return True
+    return False
+
+
+def _cli_atoms(fn):
+    def atom(t):
+        if isinstance(t, ast.Compare) and len(t.ops) == 1:
+            op, r = t.ops[0], t.comparators[0]
+            if isinstance(r, ast.Constant) and r.value is None and isinstance(op, (ast.Is, ast.IsNot, ast.Eq, ast.NotEq)):
+                return ("none", isinstance(op, (ast.Is, ast.Eq)))
+            if isinstance(op, (ast.In, ast.NotIn)) and isinstance(t.left, ast.Name) and _schema_table(fn, r):
+                return ("schema", isinstance(op, ast.In))
+        if isinstance(t, ast.Call) and call_name(t) == "hasattr" and len(t.args) == 2 and isinstance(t.args[1], ast.Name):
+            return ("schema", True)
+        return None
+    return atom
+
+
 def r7_schema_only_writes(ctx, rep):
     py = ctx.py
     n = 0
     for q in ("settings.convert_types_from_commandarguments", "__init__.parse_arguments"):
-        fn = py.func(q)
-        for c in py.walk_calls(fn):
-            if call_name(c) == "setattr" and len(c.args) == 3 and ast.unparse(c.args[0]) in ("settings", "proj_data"):
+        fn = py.ifunc(q)
+        for e in astq.trace(fn):
+            c = e.node
+            if e.kind == "call" and isinstance(c, ast.Call) and call_name(c) == "setattr" and len(c.args) == 3 and \
+                    ast.unparse(c.args[0]) in ("settings", "proj_data"):
                 n += 1
-                # dominated by `key in field_types` ?
-                p = c
-                guarded = False
-                while p is not fn:
-                    child = p
-                    p = py.parents[p]
-                    if isinstance(p, ast.If) and child in p.body and re.search(
-                            r"key in (field_types|fields|known)", ast.unparse(p.test)):
-                        guarded = True
+                guarded = astq.path_implies(e, _cli_atoms(fn), {"schema": True}) is True
                 rep.ob(f"{q} setattr({ast.unparse(c.args[0])}, key, ...) value={ast.unparse(c.args[2])[:30]}", guarded,
                        "only schema fields are written" if guarded else
                        "a key that is not a field of the settings schema is stored on the settings object (e.g. the "
@@ -474,10 +497,41 @@ def r8_metadata_grammar(ctx, rep):
     fn = py.func("utils.meta_preprocessor")
     def methods(e):
         return [c.func.attr for c in ast.walk(e) if isinstance(c, ast.Call) and isinstance(c.func, ast.Attribute)]
-    ok = any(isinstance(a, ast.Assign) and any(isinstance(c, ast.Call) and isinstance(c.func, ast.Attribute) and c.func.attr == "group"
-                                               and c.args and isinstance(c.args[0], ast.Constant) and c.args[0].value == "key"
-                                               for c in ast.walk(a.value))
-             and any(m in ("lower", "casefold") for m in methods(a.value)) for a in ast.walk(fn))
+    def from_key_group(e):
+        return any(isinstance(c, ast.Call) and isinstance(c.func, ast.Attribute) and c.func.attr == "group"
+                   and c.args and isinstance(c.args[0], ast.Constant) and c.args[0].value == "key" for c in ast.walk(e))
+    # the name that holds the key: assigned from the `key` group; it must pass .lower() - in the same expression or in a later
+    # re-assignment that is unconditional, or conditional only on a parameter that is true by default and that no caller sets
+    kvars = {t.id for a in ast.walk(fn) if isinstance(a, ast.Assign) and from_key_group(a.value) for t in a.targets if isinstance(t, ast.Name)}
+    par = astq.parents_of(fn)
+    def default_true_unset(test: ast.AST) -> bool:
+        if not isinstance(test, ast.Name):
+            return False
+        params = fn.args.args + fn.args.kwonlyargs
+        defaults = dict(zip([a.arg for a in fn.args.args][len(fn.args.args) - len(fn.args.defaults):], fn.args.defaults))
+        defaults.update({a.arg: d for a, d in zip(fn.args.kwonlyargs, fn.args.kw_defaults) if d is not None})
+        d = defaults.get(test.id)
+        if test.id not in [a.arg for a in params] or not (isinstance(d, ast.Constant) and d.value is True):
+            return False
+        pos = [a.arg for a in fn.args.args].index(test.id) if test.id in [a.arg for a in fn.args.args] else None
+        for _m, f2 in py.all_functions():
+            for c in py.walk_calls(f2):
+                if call_name(c).split(".")[-1] == fn.name and (any(k.arg == test.id for k in c.keywords) or
+                                                               (pos is not None and len(c.args) > pos)):
+                    return False
+        return True
+    ok = False
+    for a in ast.walk(fn):
+        if isinstance(a, ast.Assign) and any(isinstance(t, ast.Name) and t.id in kvars for t in a.targets) and \
+                any(m in ("lower", "casefold") for m in methods(a.value)) and \
+                (from_key_group(a.value) or any(isinstance(x, ast.Name) and x.id in kvars for x in ast.walk(a.value))):
+            # enclosing conditions on the shape of the line are irrelevant; a condition on a *parameter* of the function is a
+            # switch and must be on by default and never set by a caller
+            pnames = {x.arg for x in fn.args.args[1:] + fn.args.kwonlyargs}
+            extra = [c for c, _pol in astq.conditions_of(a, par, stop=fn)
+                     if any(isinstance(x, ast.Name) and x.id in pnames for x in ast.walk(c))]
+            if all(default_true_unset(c) for c in extra):
+                ok = True
     rep.ob("metadata keys are lower-cased", ok, "", py.nloc(fn))
 
 
@@ -568,9 +622,17 @@ def r11_computed_fields_are_not_options(ctx, rep):
                     callee = py.func(f"{mod}.{cn}") if py.has_func(f"{mod}.{cn}") else (py.func(f"settings.{cn}") if py.has_func(f"settings.{cn}") else None)
                     if callee is None:
                         continue
-                    if "get_type_hints" not in ast.unparse(callee) and "fields(" not in ast.unparse(callee):
+                    # the table may be built by the callee or by a (cached) helper it delegates to
+                    builders = [callee]
+                    for _ in range(2):
+                        for b in list(builders):
+                            for c2 in py.walk_calls(b):
+                                q2 = f"settings.{call_name(c2)}"
+                                if py.has_func(q2) and py.func(q2) not in builders:
+                                    builders.append(py.func(q2))
+                    if not any("get_type_hints" in ast.unparse(b) or "fields(" in ast.unparse(b) for b in builders):
                         continue
-                    filtered = _filtered_by_init(py, callee)
+                    filtered = any(_filtered_by_init(py, b) for b in builders)
                 sites += 1
                 ok = filtered or not computed
                 rep.ob(f"{py.qualname(fn)}: known-key table `{tname}` excludes computed fields", ok,
